@@ -894,6 +894,52 @@ def r15_array_spec_attributes(ctx, rep):
                f"`bind(c,name='n') :: z` documents z with the attribute `bind` and the shape `(c,name='n')`", py.nloc(e.node))
 
 
+def r16_literal_rewrites_keep_length(ctx, rep):
+    """Where a restored literal is prepared for display its characters may be exchanged (a blank for a no-break space, so that HTML
+    does not squeeze runs of blanks) but none may be dropped: a substitution applied to the literal inside a restoration helper
+    replaces matches of a fixed width by text of that same width.  `re.sub(r" {2,}", "\xa0", text)` turns any run into one
+    character - `'x    y'` is shown as `'x y'`."""
+    import re._parser as sre
+    py = ctx.py
+    helpers = restoration_helpers(py)
+    if not helpers:
+        raise AnalysisError("no restoration helper found")
+    rxs = {k.split(".")[-1]: v for k, v in ctx.regexes.items() if v[3] == "sourceform"}
+    n = 0
+    for h in sorted(helpers):
+        fn = py.func(f"sourceform.{h}")
+        for c in py.walk_calls(fn):
+            if not (isinstance(c.func, ast.Attribute) and c.func.attr == "sub" and len(c.args) >= 2 and isinstance(c.args[0], ast.Constant)
+                    and isinstance(c.args[0].value, str)):
+                continue
+            name = ast.unparse(c.func.value).split(".")[-1]
+            if name not in rxs or name == "QUOTES_RE":
+                continue
+            n += 1
+            pat, flags = rxs[name][0], rxs[name][1]
+            lo, hi = sre.parse(pat, flags).getwidth()
+            k = len(c.args[0].value)
+            ok = lo == hi == k
+            rep.ob(f"{h}: `{ast.unparse(c)[:50]}` keeps the length of the literal", ok,
+                   f"{name} matches exactly {k} character(s), replaced by {k}" if ok else
+                   f"{name} (`{pat}`) matches between {lo} and {'any number of' if hi > 1000 else hi} characters and each match is replaced "
+                   f"by {k}: characters of the literal are dropped from what is displayed", py.nloc(c))
+    if n == 0:
+        rep.ob("restoration helpers do not rewrite the literal", True, "no substitution inside the helpers", "ford/sourceform.py", nontrivial=False)
+
+
+def r17_card_layout(ctx, rep):
+    """trailing comments are found behind complete literals (shared with C14.R1)"""
+    from . import c14
+    c14.r1_columns(ctx, rep)
+
+
+def r18_order_bearing_collections(ctx, rep):
+    """dummy arguments keep their declared order (shared with C01.R6)"""
+    from . import c01
+    c01.r6_order_bearing_collections(ctx, rep)
+
+
 RULES = [
     RuleSpec("C18.R5", r5_selector_regexes, "kind/len selector regexes capture the whole expression", floor=2),
     RuleSpec("C18.R4", r4_literals_and_argument_attributes, "literal case is preserved; argument attributes are complete", floor=3),
@@ -911,4 +957,7 @@ RULES = [
     RuleSpec("C18.R13", r13_restoration_cursor, "the restoring loop advances past what it inserted (shared with C20.R4)", floor=2),
     RuleSpec("C18.R14", r14_selector_slots, "character selector slots are filled at most once (shared with C01.R5)", floor=2),
     RuleSpec("C18.R15", r15_array_spec_attributes, "only array-spec attributes are split into attribute and dimension", floor=1),
+    RuleSpec("C18.R16", r16_literal_rewrites_keep_length, "substitutions on a restored literal keep its length", floor=1),
+    RuleSpec("C18.R17", r17_card_layout, "trailing comments are found behind complete literals (shared with C14.R1)", floor=1),
+    RuleSpec("C18.R18", r18_order_bearing_collections, "dummy arguments keep their declared order (shared with C01.R6)", floor=1),
 ]
